@@ -15,6 +15,7 @@ pub mod c14;
 pub mod c15;
 pub mod c16;
 pub mod c17;
+pub mod c19;
 pub mod c20;
 
 use crate::engine::Prop;
@@ -39,6 +40,7 @@ pub fn lookup(id: &str) -> Option<Arc<dyn Prop>> {
         "C15" => Arc::new(c15::C15),
         "C16" => Arc::new(c16::C16),
         "C17" => Arc::new(c17::C17),
+        "C19" => Arc::new(c19::C19),
         "C20" => Arc::new(c20::C20),
         _ => return None,
     })
